@@ -27,6 +27,7 @@ SubPass(s, o) ==
     CASE s = "condA"  -> o.shape = "ok" /\ (o.condA = "TrueNoOG" \/ (o.condA = "TrueOGeq" /\ o.gen = "int"))
       [] s = "condB"  -> o.shape = "ok" /\ o.condB = "True"
       [] s = "fields" -> o.fields = "equal"                 \* missing field or different value fails
+      [] s \in {"fieldsEmpty", "fieldsDots", "fieldsEmptySeg"} -> FALSE   \* "", ".", "..", ".spec..a": the path names no field
       [] s = "cel"    -> o.x > 0
       [] s = "celEmpty" -> o.x > 0                          \* a CEL probe without a message fails like any other
       [] OTHER        -> TRUE
